@@ -21,6 +21,20 @@ use vlib::tape::Tape;
 pub struct Job {
     pub src: String,
     pub cfg: Cfg,
+    /// go through the width-only convenience function `format_with_width` (tab 2, no reordering)
+    #[serde(default)]
+    pub wrapper: bool,
+}
+
+fn run_job(f: &dyn vlib::api::Formatter, j: &Job) -> Res {
+    if j.wrapper {
+        match f.format_with_width(&j.src, j.cfg.width) {
+            Ok(s) => Res::Ok(s),
+            Err(_) => Res::Panic,
+        }
+    } else {
+        to_res(f.format(&j.src, &j.cfg))
+    }
 }
 
 #[derive(Clone, Debug, Serialize, Deserialize)]
@@ -31,6 +45,10 @@ pub struct PureCase {
     /// per thread: indices into jobs
     pub threads: Vec<Vec<usize>>,
     pub rounds: usize,
+    /// long-lived process: this many further calls alternating over the first jobs (a leak that
+    /// only shows after tens of thousands of calls, e.g. an exhausted global id space)
+    #[serde(default)]
+    pub marathon: usize,
 }
 
 pub struct C17;
@@ -55,7 +73,7 @@ pub fn fmtone_main(f: &dyn vlib::api::Formatter) -> i32 {
     let mut s = String::new();
     std::io::Read::read_to_string(&mut std::io::stdin(), &mut s).ok();
     let Ok(job) = serde_json::from_str::<Job>(&s) else { return 2 };
-    let r = to_res(f.format(&job.src, &job.cfg));
+    let r = run_job(f, &job);
     print!("{}", serde_json::to_string(&r).unwrap());
     0
 }
@@ -91,6 +109,24 @@ impl Prop for C17 {
             "thread interleavings are sampled (barrier start, repeated rounds), not enumerated: the code under test has no synchronisation points to control".into(),
             "leaked state is detected only if it changes some output".into(),
         ]
+    }
+
+    fn sweep_len(&self, _env: &Env) -> usize {
+        1
+    }
+
+    /// deterministic part: one long-lived process that serves far more calls than any 16-bit counter holds
+    fn sweep_case(&self, _i: usize, env: &Env) -> Option<PureCase> {
+        let jobs = vec![
+            Job { src: "#let a   =  (1,2)\n".into(), cfg: Cfg { width: 80, tab: 2, reorder: false }, wrapper: false },
+            Job { src: "Some *text* and $x+y$.\n#f( a,b )\n".into(), cfg: Cfg { width: 20, tab: 4, reorder: true }, wrapper: false },
+            Job { src: "#import \"m.typ\": z, a\n".into(), cfg: Cfg { width: 40, tab: 2, reorder: false }, wrapper: true },
+        ];
+        let marathon = match env.tier {
+            Tier::Quick => 140_000,
+            Tier::Thorough => 1_000_000,
+        };
+        Some(PureCase { jobs, sequence: vec![0, 1, 2, 0], threads: vec![vec![0, 1], vec![2, 0]], rounds: 2, marathon })
     }
 
     fn gen_cases(&self, tier: Tier) -> u64 {
@@ -147,22 +183,50 @@ impl Prop for C17 {
                     break;
                 }
                 let cfg = Cfg { width: config::width(t), tab: config::tab(t), reorder: t.chance(60) };
-                jobs.push(Job { src: s.clone(), cfg });
+                let wrapper = t.chance(40);
+                let cfg = if wrapper { Cfg { tab: 2, reorder: false, ..cfg } } else { cfg };
+                jobs.push(Job { src: s.clone(), cfg, wrapper });
             }
+        }
+        // a ladder: one text at descending widths, a few columns apart (through the wrapper or not)
+        let mut ladder: Vec<usize> = vec![];
+        if t.chance(140) && jobs.len() < 22 {
+            let src = if t.coin() {
+                // a dotted call path at the plain/chain layout threshold (Config::chain_width)
+                let w0 = t.range(16, 70);
+                let want = ((w0 as f32 * 0.6) as usize).clamp(5, 50);
+                let each = (want - 2) / 3;
+                format!("#{{\n  {}.{}.{}(dddddd, eeeeee)\n}}\n", "a".repeat(each.max(1)), "b".repeat(each.max(1)), "c".repeat((want - 2 - 2 * each).max(1)))
+            } else {
+                texts[t.below(texts.len())].clone()
+            };
+            let wrapper = t.chance(160);
+            let mut w = t.range(20, 90);
+            for _ in 0..t.range(3, 6) {
+                ladder.push(jobs.len());
+                jobs.push(Job { src: src.clone(), cfg: Cfg { width: w, tab: 2, reorder: false }, wrapper });
+                w = w.saturating_sub(t.range(1, 6));
+            }
+            st.label("ladder:descending-widths");
         }
         if jobs.len() < 2 {
             return None;
         }
         st.label(&format!("jobs:{}", if jobs.len() < 8 { "2-7" } else { "8-24" }));
         let n = jobs.len();
-        let sequence = (0..(n * 2).min(40)).map(|_| t.below(n)).collect();
+        let mut sequence: Vec<usize> = (0..(n * 2).min(40)).map(|_| t.below(n)).collect();
+        // the ladder is walked in order somewhere in the sequential history
+        let at = t.below(sequence.len() + 1);
+        for (k, i) in ladder.iter().enumerate() {
+            sequence.insert(at + k, *i);
+        }
         let nt = t.pick(&[2usize, 2, 3, 4, 8, 16]);
         let threads = (0..nt).map(|_| (0..t.range(2, 8)).map(|_| t.below(n)).collect()).collect();
         let rounds = match env.tier {
             Tier::Quick => 6,
             Tier::Thorough => 30,
         };
-        Some(PureCase { jobs, sequence, threads, rounds })
+        Some(PureCase { jobs, sequence, threads, rounds, marathon: 0 })
     }
 
     fn check(&self, c: &PureCase, env: &Env, st: &mut Stats) -> Verdict {
@@ -183,7 +247,7 @@ impl Prop for C17 {
         // (a) twice in a row
         for (i, j) in c.jobs.iter().enumerate() {
             for pass in 0..2 {
-                let r = to_res(env.f.format(&j.src, &j.cfg));
+                let r = run_job(env.f, j);
                 if r != reference[i] {
                     return Verdict::fail(
                         "C17:repeated-call-differs",
@@ -195,13 +259,28 @@ impl Prop for C17 {
         // (b) sequential interleaving
         for (k, &i) in c.sequence.iter().enumerate() {
             let j = &c.jobs[i];
-            let r = to_res(env.f.format(&j.src, &j.cfg));
+            let r = run_job(env.f, j);
             if r != reference[i] {
                 return Verdict::fail(
                     "C17:history-dependent",
                     format!("{} differs from its fresh-process result at position {k} of the sequential history {:?}", describe(i), &c.sequence[..=k]),
                 );
             }
+        }
+        // (b') marathon: many more calls in this process, then every job once more
+        if c.marathon > 0 {
+            let m = c.jobs.len().min(3);
+            for k in 0..c.marathon {
+                let i = k % m;
+                let r = run_job(env.f, &c.jobs[i]);
+                if r != reference[i] {
+                    return Verdict::fail(
+                        "C17:call-count-dependent",
+                        format!("{} gives a different result on call {} of a long-lived process than in a fresh process ({r:?})", describe(i), k + 1).chars().take(400).collect::<String>(),
+                    );
+                }
+            }
+            st.label("marathon");
         }
         // (c) concurrent
         let nt = c.threads.len();
@@ -217,7 +296,7 @@ impl Prop for C17 {
                     handles.push(s.spawn(move || {
                         barrier.wait();
                         for &i in seq {
-                            let r = to_res(f.format(&jobs[i].src, &jobs[i].cfg));
+                            let r = run_job(f, &jobs[i]);
                             if r != reference[i] {
                                 return Some((ti, i));
                             }
